@@ -1,6 +1,7 @@
 use crate::engine::Tier;
 use crate::sut::Sut;
 
+pub mod c04;
 pub mod c11;
 pub mod c17;
 pub mod c18;
@@ -44,6 +45,7 @@ macro_rules! dispatch {
 }
 
 dispatch! {
+    "C04" => c04,
     "C11" => c11,
     "C17" => c17,
     "C18" => c18,
